@@ -90,6 +90,16 @@ impl Store {
         }
         best
     }
+    fn seek_back(&self, k: u64, strict: bool) -> Option<usize> {
+        let mut best: Option<usize> = None; let mut i = 0;
+        while i < CAP {
+            if self.used[i] && (if strict { self.keys[i] < k } else { self.keys[i] <= k }) {
+                best = match best { Some(b) if self.keys[b] >= self.keys[i] => Some(b), _ => Some(i) };
+            }
+            i += 1;
+        }
+        best
+    }
     fn max_key(&self) -> Option<u64> { let mut m: Option<u64> = None; let mut i = 0; while i < CAP { if self.used[i] { m = match m { Some(x) if x >= self.keys[i] => Some(x), _ => Some(self.keys[i]) }; } i += 1; } m }
     pub fn put_raw(&mut self, kb: &[u8], v: &[u8]) -> std::result::Result<(), MdbError> {
         let k = k64(kb);
@@ -245,6 +255,26 @@ impl<KC, DC, C> Database<KC, DC, C> {
     where KC: BytesDecode<'txn>, DC: BytesDecode<'txn> {
         let s = txn.s();
         match s.max_key() { Some(k) => match s.find(k) { Some(i) => decode_pair::<KC, DC>(txn.store, i).map(Some), None => Ok(None) }, None => Ok(None) }
+    }
+    pub fn get_greater_than_or_equal_to<'a, 'txn>(&self, txn: &'txn RoTxn, key: &'a KC::EItem) -> Result<Option<(KC::DItem, DC::DItem)>>
+    where KC: BytesEncode<'a> + BytesDecode<'txn>, DC: BytesDecode<'txn> {
+        let kb = KC::bytes_encode(key).map_err(Error::Encoding)?;
+        match txn.s().seek(k64(&kb), false) { Some(i) => decode_pair::<KC, DC>(txn.store, i).map(Some), None => Ok(None) }
+    }
+    pub fn get_greater_than<'a, 'txn>(&self, txn: &'txn RoTxn, key: &'a KC::EItem) -> Result<Option<(KC::DItem, DC::DItem)>>
+    where KC: BytesEncode<'a> + BytesDecode<'txn>, DC: BytesDecode<'txn> {
+        let kb = KC::bytes_encode(key).map_err(Error::Encoding)?;
+        match txn.s().seek(k64(&kb), true) { Some(i) => decode_pair::<KC, DC>(txn.store, i).map(Some), None => Ok(None) }
+    }
+    pub fn get_lower_than_or_equal_to<'a, 'txn>(&self, txn: &'txn RoTxn, key: &'a KC::EItem) -> Result<Option<(KC::DItem, DC::DItem)>>
+    where KC: BytesEncode<'a> + BytesDecode<'txn>, DC: BytesDecode<'txn> {
+        let kb = KC::bytes_encode(key).map_err(Error::Encoding)?;
+        match txn.s().seek_back(k64(&kb), false) { Some(i) => decode_pair::<KC, DC>(txn.store, i).map(Some), None => Ok(None) }
+    }
+    pub fn get_lower_than<'a, 'txn>(&self, txn: &'txn RoTxn, key: &'a KC::EItem) -> Result<Option<(KC::DItem, DC::DItem)>>
+    where KC: BytesEncode<'a> + BytesDecode<'txn>, DC: BytesDecode<'txn> {
+        let kb = KC::bytes_encode(key).map_err(Error::Encoding)?;
+        match txn.s().seek_back(k64(&kb), true) { Some(i) => decode_pair::<KC, DC>(txn.store, i).map(Some), None => Ok(None) }
     }
     pub fn is_empty(&self, txn: &RoTxn) -> Result<bool> { Ok(txn.s().count() == 0) }
     pub fn clear(&self, txn: &mut RwTxn) -> Result<()> { let s = unsafe { &mut *txn.txn.store }; let mut i = 0; while i < CAP { s.used[i] = false; i += 1; } Ok(()) }
